@@ -631,6 +631,11 @@ def elem_call(ip, st, el, meth, pos, kws):
     reg = ip.reg
     ip.assumptions.add("element interface: run/fill/compute/request/__call__ of user elements denote functions "
                        "of their input (DESIGN 2.4 item 4)")
+    if ip.c is not None and not ip.spec_mode and meth in getattr(ip.c, "at_call", {}) and st.depth == 0:
+        env = dict(ip.spec_env(st))
+        env["call_args"] = Tup(list(pos))        # the arguments of this call
+        for k, cl in enumerate(ip.c.at_call[meth]):
+            ip.emit("call-site", "at-call %s#%d" % (meth, k), st, eval_spec(ip, st, env, cl, old=ip.entry))
     if meth == "__call__":
         if len(pos) == 1 and isinstance(pos[0], Opaque) and pos[0].sort == "V":
             f = reg.ufun("el_call", ["Obj", "V"], "V")
@@ -655,9 +660,7 @@ def elem_call(ip, st, el, meth, pos, kws):
         cur = elem_state(ip, st, el)
         f = reg.ufun("el_fill", ["Obj", "St", "V"], "St")
         stops = reg.ufun("el_fill_stops", ["Obj", "St", "V"], "Bool")
-        v = pos[0]
-        if not (isinstance(v, Opaque) and v.sort == "V"):
-            raise U("fill of a non-V value")
+        v = as_flow_value(ip, st, pos[0])
         stop_c = T("(%s %s %s %s)" % (stops, el.t.s, cur.s, v.t.s), "Bool")
         if ip.may_catch(st, "LenaStopFill"):
             bad = st.fork(stop_c, "stop.")
@@ -683,6 +686,23 @@ def elem_call(ip, st, el, meth, pos, kws):
     if meth == "fill_into":
         raise U("fill_into on abstract element")
     raise U("method %s of abstract element" % meth)
+
+
+def as_flow_value(ip, st, v):
+    """a value handed to a user element, as a term of sort V; a (data, context) pair with a dictionary context is folded
+    by an injective pairing of the data and the VALUE of the context"""
+    v = ip.to_yield_value(st, v)
+    if isinstance(v, Opaque) and v.sort == "V":
+        return v
+    if isinstance(v, Tup) and len(v.items) == 2 and isinstance(v.items[0], Opaque) and v.items[0].sort == "V":
+        from .dicts import dterm
+        try:
+            c = dterm(ip, st, v.items[1])
+        except Exception:
+            raise U("fill of a non-V value")
+        f = ip.reg.ufun("mkpair_ctx", ["V", "Val"], "V")
+        return Opaque(T("(%s %s %s)" % (f, v.items[0].t.s, c.s), "V"))
+    raise U("fill of a non-V value")
 
 
 def elem_state(ip, st, el):
@@ -826,7 +846,23 @@ def _sf_is_fresh(ip, e, st):
     return Bool(TRUE)       # immutable values share nothing
 
 
-SPEC_FORMS = {"is_fresh": _sf_is_fresh, "arith_next": _sf_arith_next, "old": _sf_old, "implies": _sf_implies, "iff": _sf_iff, "pulled": _sf_pulled, "content": _sf_content,
+def _sf_made_in_iteration(ip, e, st):
+    """made_in_iteration(x, k): the object x was created during the current iteration of loop #k (a new object per
+    iteration: nothing an earlier iteration handed out can be reached through it)"""
+    v = ip.ev1(e.args[0], st)
+    k = e.args[1].value
+    ep = st.notes.get("epoch_%s" % k)
+    if ep is None or not isinstance(v, Ref):
+        return Bool(FALSE)
+    return Bool(TRUE if int(v.cid[1:]) > ep else FALSE)
+
+
+def _sf_in_loop(ip, e, st):
+    """in_loop(k): control is inside the body of (for-)loop #k"""
+    return Bool(TRUE if st.notes.get("inloop_%s" % e.args[0].value) else FALSE)
+
+
+SPEC_FORMS = {"in_loop": _sf_in_loop, "made_in_iteration": _sf_made_in_iteration, "is_fresh": _sf_is_fresh, "arith_next": _sf_arith_next, "old": _sf_old, "implies": _sf_implies, "iff": _sf_iff, "pulled": _sf_pulled, "content": _sf_content,
               "rest": _sf_rest}
 SPEC_FORMS.update(_dict_forms())
 from .lib import FS_FORMS as _FS_FORMS
